@@ -16,10 +16,10 @@ from pyasn1.codec.der import encoder as der_enc, decoder as der_dec
 PROPERTY = 'C18'
 LEVEL = 'exploration'
 RULE = ('E1 exhaustive product: container {SEQUENCE, SET} x governor type {INTEGER, OBJECT IDENTIFIER} x open field shape '
-        '{ANY, [3] IMPLICIT ANY, [3] EXPLICIT ANY, SET OF ANY, SEQUENCE OF ANY} x 8 mapped inner types (INTEGER, OCTET '
+        '{ANY, [3] IMPLICIT ANY, [3] EXPLICIT ANY, SET OF / SEQUENCE OF (tagged) ANY, the same with a user subclass of ANY as member type} x 10 mapped inner types (INTEGER, OCTET '
         'STRING, BOOLEAN, SEQUENCE{a,b OPT}, SEQUENCE OF INTEGER, [5] EXPLICIT INTEGER, SET OF OCTET STRING, empty '
         'SEQUENCE) x 2 inner values x governing value {mapped, unmapped} x codec {BER definite, BER indefinite, CER, '
-        'DER} x decodeOpenTypes {on, off} x openTypes override {absent, present and disagreeing with the default map, present but silent about this governing value, schema map filled in after the schema was built} x field declaration {both mandatory; open type field OPTIONAL and present; governing field DEFAULT and holding its default}. '
+        'DER} x decodeOpenTypes {on, off} x openTypes override {absent, present and disagreeing with the default map, present but silent about this governing value, schema map filled in after the schema was built} x field declaration {both mandatory; open type field OPTIONAL and present; governing field DEFAULT and holding its default; governing field OPTIONAL and absent (field must stay raw); a second open type field governed by an unmapped value}. '
         'Oracle: with resolution on and a mapped governing value the field reads back as the inner abstract value '
         'under the mapped type; otherwise the field holds exactly the complete encoding (same codec) of the inner '
         'value. Non-trivial = every case; distinct = digest of the full configuration.')
@@ -71,23 +71,40 @@ def field_spec(shape):
         return univ.SetOf(componentType=univ.Any().subtype(implicitTag=t3))
     if shape == 'seqof-any-explicit':
         return univ.SequenceOf(componentType=univ.Any().subtype(explicitTag=t3))
+    if shape == 'setof-anysub-implicit':
+        # the member type is a user's subclass of ANY (the usual way of naming it: AttributeValue ::= ANY)
+        return univ.SetOf(componentType=AttributeValue().subtype(implicitTag=t3))
+    if shape == 'seqof-anysub':
+        return univ.SequenceOf(componentType=AttributeValue())
     raise ValueError(shape)
+
+
+class AttributeValue(univ.Any):
+    pass
 
 
 def make_schema(container, gov, shape, default_map, fmode='req', govval=None):
     govcls, _ = GOV[gov]
     ot = opentype.OpenType('id', default_map)
     cls = univ.Sequence if container == 'seq' else univ.Set
-    idt = namedtype.DefaultedNamedType('id', govcls(govval)) if fmode == 'default-id' else namedtype.NamedType('id', govcls())
+    idt = namedtype.DefaultedNamedType('id', govcls(govval)) if fmode == 'default-id' else \
+        namedtype.OptionalNamedType('id', govcls()) if fmode == 'absent-id' else namedtype.NamedType('id', govcls())
     blobcls = namedtype.OptionalNamedType if fmode == 'opt-blob' else namedtype.NamedType
-    return cls(componentType=namedtype.NamedTypes(idt, blobcls('blob', field_spec(shape), openType=ot)))
+    fields = [idt, blobcls('blob', field_spec(shape), openType=ot)]
+    if fmode == 'two-open':
+        # a second open type field with its own governor, which will hold a value the maps do not know
+        t8 = tag.Tag(tag.tagClassContext, tag.tagFormatSimple, 8)
+        t9 = tag.Tag(tag.tagClassContext, tag.tagFormatSimple, 9)
+        fields += [namedtype.NamedType('id2', univ.Integer().subtype(implicitTag=t8)),
+                   namedtype.NamedType('blob2', univ.Any().subtype(explicitTag=t9), openType=opentype.OpenType('id2', default_map))]
+    return cls(componentType=namedtype.NamedTypes(*fields))
 
 
 def configs():
     for container in ('seq', 'set'):
         for gov in ('int', 'oid'):
             for shape in ('any', 'any-implicit', 'any-explicit', 'setof-any', 'seqof-any', 'setof-any-implicit',
-                          'seqof-any-explicit'):
+                          'seqof-any-explicit', 'setof-anysub-implicit', 'seqof-anysub'):
                 for k, (IT, vals) in enumerate(INNER):
                     for iv in vals:
                         for mapped in (True, False):
@@ -102,6 +119,10 @@ def configs():
                                             # holding its default (so no encoder sends it)
                                             yield container, gov, shape, k, IT, iv, mapped, codec, resolve, override, 'opt-blob'
                                             yield container, gov, shape, k, IT, iv, mapped, codec, resolve, override, 'default-id'
+                                            # the governing field OPTIONAL and absent: nothing to resolve by, the field stays raw
+                                            yield container, gov, shape, k, IT, iv, mapped, codec, resolve, override, 'absent-id'
+                                            # a second open type field governed by an unmapped value after one that resolves
+                                            yield container, gov, shape, k, IT, iv, mapped, codec, resolve, override, 'two-open'
 
 
 def check(idx, cfg, R):
@@ -113,7 +134,7 @@ def check(idx, cfg, R):
         gtag = ('U', 2) if gov == 'int' else ('U', 6)
         if gtag in ft:
             return
-    if fmode == 'default-id' and shape == 'any':
+    if fmode in ('default-id', 'absent-id') and shape == 'any':
         # an omitted DEFAULT governor followed by an untagged ANY is only unambiguous when the inner value's tag
         # differs from the governor's
         if (('U', 2) if gov == 'int' else ('U', 6)) in M.first_tags(IT):
@@ -127,7 +148,7 @@ def check(idx, cfg, R):
              'inner:' + ('constructed' if M.base_of(IT)[0] in ('SEQ', 'SET', 'SEQOF', 'SETOF') or IT[0] == 'TAG' else 'primitive')}
     if IT[0] == 'TAG' and IT[1] == 'E' and M.base_of(IT)[0] in ('INT', 'BOOL', 'NULL', 'OID', 'REAL', 'ENUM') and codec in ('ber-indef', 'cer'):
         feats.add('kf:K1')        # the inner value's own encoding carries the recorded stray end-of-octets
-    if IT[0] == 'TAG' and (IT[2], IT[3]) == ('C', 3) and shape in ('any-implicit', 'any-explicit', 'setof-any-implicit', 'seqof-any-explicit'):
+    if IT[0] == 'TAG' and (IT[2], IT[3]) == ('C', 3) and shape in ('any-implicit', 'any-explicit', 'setof-any-implicit', 'seqof-any-explicit', 'setof-anysub-implicit'):
         feats.add('inner_tag_equals_field_tag')
     if fmode == 'opt-blob' and codec in ('cer', 'der') and M.base_of(IT)[0] in ('SEQ', 'SET', 'SEQOF', 'SETOF') and not iv:
         feats.add('empty_value_in_optional_field')      # recorded finding K2 reaches the inner value through ifNotEmpty
@@ -160,12 +181,16 @@ def check(idx, cfg, R):
         if late is not None:
             default_map.update(late)
         val = schema.clone()
-        val['id'] = govval
+        if fmode != 'absent-id':
+            val['id'] = govval
         inner_obj = B.build(IT, iv, B.to_spec(IT, cache=False))
         if shape.startswith(('setof-any', 'seqof-any')):
             val['blob'].append(inner_obj)
         else:
             val['blob'] = inner_obj
+        if fmode == 'two-open':
+            val['id2'] = 9999
+            val['blob2'] = univ.Integer(300)
     except Exception as e:
         R.violation('build.error', rec, exc_text(e), 'value with typed inner value can be built', pyasn1_site(e), feats, idx)
         return
@@ -189,6 +214,12 @@ def check(idx, cfg, R):
         R.violation('remainder', rec, rest.hex() + ' after ' + data[:48].hex(), 'empty', 'decoder', feats, idx)
         return
     try:
+        if fmode == 'two-open':
+            b2 = out.getComponentByName('blob2', default=None, instantiate=False)
+            if not isinstance(b2, univ.Any) or bytes(b2) != bytes.fromhex('0202012c'):
+                R.violation('second_field', rec, 'the field governed by an unmapped value came back as %s %r' % (
+                    type(b2).__name__, b2), 'Any holding 02 02 01 2c', 'decoder', feats, idx)
+                return
         blob = out.getComponentByName('blob', default=None, instantiate=False)
         if shape.startswith(('setof-any', 'seqof-any')):
             if blob is None or len(blob) != 1:
@@ -198,7 +229,7 @@ def check(idx, cfg, R):
         if blob is None:
             R.violation('field.missing', rec, 'blob missing after decoding ' + data[:48].hex(), 'field present', 'decoder', feats, idx)
             return
-        if resolve and mapped:
+        if resolve and mapped and fmode != 'absent-id':
             ispec = B.to_spec(IT, cache=False)
             try:
                 got = B.abs_of(blob, IT, ispec)
